@@ -62,6 +62,10 @@ fn main() {
             let mut out = std::fs::File::create(a.output.as_ref().unwrap()).unwrap();
             for x in h { writeln!(out, "{}", x).unwrap(); }
         }
+        "size-limits" => {
+            let s = checks::table::size_limits(opt("max_e").and_then(|s| s.parse().ok()).unwrap_or(12));
+            write_summary(&a, &s);
+        }
         "replay-table" => {
             let lines = read_lines(a.input.as_ref().unwrap());
             let o = checks::table::TableOpts { seed: a.seed, base_idx: opt("base_idx").and_then(|s| s.parse().ok()).unwrap_or(0), plain_labels: opt("plain").is_some() };
